@@ -10,14 +10,20 @@
 (*           serialised by Wire!Serialize and read back by Wire!ParseOne, i.e. the peer),           *)
 (*           SendBreaks (the same, but the connection fails at the first body write), Reply (the    *)
 (*           scripted outcome: ok, connection error, 503, 307/308, 303; retry and                   *)
-(*           pool-level redirect keep body_pos, the manager-level redirect starts a new urlopen).    *)
+(*           pool-level redirect keep the pool's body_pos; PoolManager.urlopen (ManagerEnter) records   *)
+(*           the position once before its first attempt and hands it to the pool of every redirected    *)
+(*           request - as an integer, where 0 is a legitimate value).                                   *)
 (*           Named deviations, enabled by membership in the parameter D:                            *)
-(*             "D3"  a body that cannot be replayed (one-shot iterator, file-like object without     *)
-(*                   tell()) gets no position marker, so a re-send silently sends what is left         *)
-(*             "D4"  the manager-level redirect does not carry body_pos: the new urlopen records the    *)
-(*                   CURRENT position (end of file) and the body is re-sent empty                       *)
-(*           With D = {} the model is the repaired design (a marker _FAILEDTELL for           *)
-(*           unreplayable bodies; body_pos carried across the manager-level redirect).                  *)
+(*             "D3"  (recorded finding) a body that cannot be replayed (one-shot iterator, file-like    *)
+(*                   object without tell()) gets no position marker, so a re-send silently sends what     *)
+(*                   is left                                                                            *)
+(*             "ZeroPosTreatedAsUnset"  (never in the code; TLC must refute it) the manager tests the      *)
+(*                   truth value of the position instead of `is None`: a body that starts at offset 0       *)
+(*                   is re-recorded at the redirected call (now at end of file), and the SECOND redirect     *)
+(*                   in a row re-sends it empty                                                            *)
+(*           With D = {} the model is the design (a marker _FAILEDTELL for unreplayable bodies).          *)
+(*           (D4 - body_pos not carried across the manager-level redirect - was repaired in /repo by      *)
+(*           b489f4f and its deviation action has been deleted from this model.)                          *)
 (*   RULES   the property, over what the peer observed (one summary per attempt) and the outcome:        *)
 (*           ExactlyOneFraming, PayloadEqualsBody, UnframedWhenBodyless, BodyIdentical (or the call      *)
 (*           fails with UnrewindableBodyError).  Verdict(sc, atts) is total and names the clause.        *)
@@ -27,9 +33,10 @@
 (* code, Predict = the model run for the same scenario).                                              *)
 EXTENDS Wire
 
-\* Every MODEL operator takes D, the set of deviations that are enabled (a subset of {"D3", "D4"}): the model
-\* checker fixes it per run, the trace monitor asks which D describes a recorded run.
-Defects == {"D3", "D4"}
+\* Every MODEL operator takes D, the set of deviations that are enabled: the model checker fixes it per run,
+\* the trace monitor asks which D describes a recorded run.
+Z0 == "ZeroPosTreatedAsUnset"
+Defects == {"D3", Z0}
 
 -----------------------------------------------------------------------------
 (* Body kinds                                                                   *)
@@ -123,9 +130,12 @@ Verdict(sc, atts) == VerdictFrom(sc, atts, 1)
 
 -----------------------------------------------------------------------------
 (* MODEL: the re-send state machine, one operator per real step                 *)
-(*   st = [pc, method, target, hasBody, cursor, used, bodyPos, left, atts, wires, outcome]           *)
-(*   atts = what the peer observed per attempt, wires = the symbols written per attempt                 *)
-(*   pc in {"enter", "send", "reply", "done"}; bodyPos = PosNone | PosFailed (_FAILEDTELL) | PosAt(n)  *)
+(*   st = [pc, method, target, hasBody, cursor, used, bodyPos, kwPos, mgrPos, left, atts, wires, outcome] *)
+(*   bodyPos = body_pos inside HTTPConnectionPool.urlopen; kwPos = kw["body_pos"] handed to the current     *)
+(*   PoolManager.urlopen call; mgrPos = the local body_pos of that call                                     *)
+(*   atts = what the peer observed per attempt, wires = the symbols written per attempt,                *)
+(*   trail = the names of the actions taken so far (read back by the harness: an action nobody takes is vacuous) *)
+(*   pc in {"menter", "enter", "send", "reply", "done"}; bodyPos = PosNone | PosFailed (_FAILEDTELL) | PosAt(n)  *)
 
 PosNone == [k |-> "None", v |-> 0]
 PosFailed == [k |-> "FAILEDTELL", v |-> 0]
@@ -139,13 +149,25 @@ ReqOf(sc, st, chunks) ==
      body |-> [kind |-> IF st.hasBody THEN sc.kind ELSE "none", chunks |-> chunks],
      chunked |-> sc.chunked]
 
-InitState(sc) == [pc |-> "enter", method |-> sc.method, target |-> <<"a">>, hasBody |-> sc.kind # "none",
+InitState(sc) == [pc |-> IF sc.client = "mgr" THEN "menter" ELSE "enter", kwPos |-> PosNone, mgrPos |-> PosNone, method |-> sc.method, target |-> <<"a">>, hasBody |-> sc.kind # "none",
                   cursor |-> sc.start, used |-> 0, bodyPos |-> PosNone, left |-> sc.hist,
-                  atts |-> <<>>, wires |-> <<>>, outcome |-> "running"]
+                  atts |-> <<>>, wires |-> <<>>, trail |-> <<>>, outcome |-> "running"]
 
 Fail(st, what) == [st EXCEPT !.pc = "done", !.outcome = what]
 
-\* set_file_position(body, body_pos) at the top of every urlopen call
+\* set_file_position(body, None): record only
+RecordOnly(D, k, cursor) ==
+    IF k \in HasTell THEN (IF k = "badtell" THEN PosFailed ELSE PosAt(cursor))
+    ELSE IF k \in OneShot /\ "D3" \notin D THEN PosFailed
+    ELSE PosNone
+\* top of PoolManager.urlopen: keep the position handed down in kw, or record it (first call); the pool gets kw as is
+ManagerUnset(D, st) == st.kwPos = PosNone \/ (Z0 \in D /\ st.kwPos = PosAt(0))
+ManagerEnter(D, sc, st) ==
+    LET k == IF st.hasBody THEN sc.kind ELSE "none" IN
+    [st EXCEPT !.pc = "enter", !.bodyPos = st.kwPos,
+               !.mgrPos = IF ManagerUnset(D, st) THEN RecordOnly(D, k, st.cursor) ELSE st.kwPos]
+
+\* set_file_position(body, body_pos) at the top of every HTTPConnectionPool.urlopen call
 Enter(D, sc, st) ==
     LET k == IF st.hasBody THEN sc.kind ELSE "none" IN
     IF st.bodyPos # PosNone
@@ -192,10 +214,11 @@ Breaks(sc, st) == st.left # <<>> /\ Head(st.left) = "errsend" /\ HasBodyWrite(sc
 
 \* body_to_chunks + HTTPConnection.request, then the peer reads the message
 Send(sc, st) ==
-    LET k == IF st.hasBody THEN sc.kind ELSE "none" IN
+    LET k == IF st.hasBody THEN sc.kind ELSE "none"
+        w == WireOf(sc, st) IN
     [st EXCEPT !.pc = "reply",
-               !.atts = Append(st.atts, Observe(WireOf(sc, st))),
-               !.wires = Append(st.wires, WireOf(sc, st)),
+               !.atts = Append(st.atts, Observe(w)),
+               !.wires = Append(st.wires, w),
                !.cursor = IF k \in FileLike THEN Len(sc.content) ELSE st.cursor,
                !.used = IF k = "gen" THEN 4 ELSE st.used]
 
@@ -204,10 +227,11 @@ Send(sc, st) ==
 SendBreaks(sc, st) ==
     LET k == IF st.hasBody THEN sc.kind ELSE "none"
         chunks == Yield(sc, st)
-        i == FirstNonEmpty(chunks) IN
+        i == FirstNonEmpty(chunks)
+        w == HeadOf(sc, st) IN
     [st EXCEPT !.pc = "reply",
-               !.atts = Append(st.atts, [Observe(HeadOf(sc, st)) EXCEPT !.complete = FALSE]),
-               !.wires = Append(st.wires, HeadOf(sc, st)),
+               !.atts = Append(st.atts, [Observe(w) EXCEPT !.complete = FALSE]),
+               !.wires = Append(st.wires, w),
                !.cursor = IF k \in FileLike THEN (IF i = 0 THEN Len(sc.content) ELSE st.cursor + Len(chunks[i])) ELSE st.cursor,
                !.used = IF k = "gen" THEN (IF i = 0 THEN 4 ELSE st.used + i) ELSE st.used]
 
@@ -218,14 +242,29 @@ Reply(D, sc, st) ==
     CASE o = "ok" -> [st EXCEPT !.pc = "done", !.outcome = "resp", !.left = rest]
       [] o \in {"err", "errsend", "503"} -> [st EXCEPT !.pc = "enter", !.left = rest]        \* recursion with body_pos
       [] o \in {"307", "308"} ->
-           [st EXCEPT !.pc = "enter", !.left = rest, !.target = <<"a","g","a","i","n">>,
-                      !.bodyPos = IF sc.client = "mgr" /\ "D4" \in D THEN PosNone ELSE st.bodyPos]
-      [] o = "303" -> [st EXCEPT !.pc = "enter", !.left = rest, !.target = <<"a","g","a","i","n">>,
-                                 !.method = GETm, !.hasBody = FALSE, !.bodyPos = PosNone]
+           IF sc.client = "mgr"          \* manager-level redirect: a new PoolManager.urlopen with kw["body_pos"] = its body_pos
+           THEN [st EXCEPT !.pc = "menter", !.left = rest, !.target = <<"a","g","a","i","n">>, !.kwPos = st.mgrPos]
+           ELSE [st EXCEPT !.pc = "enter", !.left = rest, !.target = <<"a","g","a","i","n">>]      \* recursion with body_pos
+      [] o = "303" -> [st EXCEPT !.pc = IF sc.client = "mgr" THEN "menter" ELSE "enter", !.left = rest,
+                                 !.target = <<"a","g","a","i","n">>,
+                                 !.method = GETm, !.hasBody = FALSE, !.bodyPos = PosNone, !.kwPos = PosNone]
 
-Step(D, sc, st) == CASE st.pc = "enter" -> Enter(D, sc, st)
-                     [] st.pc = "send" -> (IF Breaks(sc, st) THEN SendBreaks(sc, st) ELSE Send(sc, st))
-                     [] st.pc = "reply" -> Reply(D, sc, st) [] st.pc = "done" -> st
+\* the name of the action that is enabled in st (exactly one while pc # "done"): one per branch of the real code
+ActionName(D, sc, st) ==
+    CASE st.pc = "menter" -> (IF ManagerUnset(D, st) THEN "ActManagerRecords" ELSE "ActManagerKeeps")
+      [] st.pc = "enter" -> "Act" \o EnterCase(D, sc, st)
+      [] st.pc = "send" -> (IF Breaks(sc, st) THEN "ActSendBreaks" ELSE "ActSend")
+      [] st.pc = "reply" -> (LET o == Head(st.left) IN
+                             CASE o = "ok" -> "ActReturn" [] o \in {"err", "errsend", "503"} -> "ActRetry"
+                               [] o \in {"307", "308"} -> (IF sc.client = "mgr" THEN "ActManagerRedirect" ELSE "ActPoolRedirect")
+                               [] o = "303" -> "ActSeeOther")
+      [] st.pc = "done" -> "none"
+Step(D, sc, st) ==
+    LET nx == CASE st.pc = "menter" -> ManagerEnter(D, sc, st)
+                [] st.pc = "enter" -> Enter(D, sc, st)
+                [] st.pc = "send" -> (IF Breaks(sc, st) THEN SendBreaks(sc, st) ELSE Send(sc, st))
+                [] st.pc = "reply" -> Reply(D, sc, st) [] st.pc = "done" -> st
+    IN IF st.pc = "done" THEN st ELSE [nx EXCEPT !.trail = Append(st.trail, ActionName(D, sc, st))]
 
 \* the complete model run of a scenario (trace validation compares a recorded run with it)
 RECURSIVE RunFrom(_, _, _)
@@ -250,5 +289,8 @@ SameBytes(D, sc, raws) == BytesMatch(Predict(D, sc), raws)
 HasResendBefore(sc, j) == \E i \in 1..(j - 1) : i <= Len(sc.hist) /\ sc.hist[i] \in Resend
 ManagerRedirectBefore(sc, j) == sc.client = "mgr" /\ \E i \in 1..(j - 1) : i <= Len(sc.hist) /\ sc.hist[i] \in {"307", "308"}
 InClassD3(sc, j) == sc.kind \in OneShot /\ HasResendBefore(sc, j)
-InClassD4(sc, j) == sc.kind \in HasTell /\ ManagerRedirectBefore(sc, j)
+\* the only place where "position 0 counts as unset" can bite: a seekable body at offset 0, PoolManager, and at least
+\* two manager-level redirects before the attempt
+InClassZ0(sc, j) == /\ sc.client = "mgr" /\ sc.kind \in HasTell /\ sc.start = 0
+                    /\ Cardinality({i \in 1..(j - 1) : i <= Len(sc.hist) /\ sc.hist[i] \in {"307", "308"}}) >= 2
 =============================================================================
